@@ -42,7 +42,19 @@ theorem noGenericsB_sound (t : Tab) (h : noGenericsB t = true) : NoGenerics t.fa
 
 theorem wellFormedB_sound (v2 : Bool) (t : Tab) (h : wellFormedB v2 t = true) : WellFormed t.facts v2 := by
   simp only [wellFormedB, List.all_eq_true] at h
-  refine ⟨?_⟩
+  refine ⟨?_, ?_⟩
+  rotate_left
+  · intro g ms hn
+    rcases node_cases t g with ⟨_, hm⟩ | ⟨_, ho⟩
+    · have := h _ hm
+      rw [hn] at this
+      simp only [Bool.and_eq_true, decide_eq_true_eq, List.all_eq_true] at this
+      refine ⟨this.1, fun m hmem => ?_⟩
+      have h2 := this.2 m hmem
+      cases hs : shape v2 (t.facts.node m.sig) with
+      | none => rw [hs] at h2; cases h2
+      | some p => exact ⟨p.1, p.2, rfl⟩
+    · rw [hn] at ho; cases ho
   intro g und ms tps ou hn
   rcases node_cases t g with ⟨_, hm⟩ | ⟨_, ho⟩
   · have := h _ hm
